@@ -43,3 +43,13 @@ PART["C05"] = {
             "last 3 rounds. non-trivial = the network was at least 2 rounds behind when the faults stopped; distinct = distinct scenario",
     "assumptions": ["liveness is decided as bounded progress in logical steps, never by wall-clock; quiescence detection only paces the clock driver"],
 }
+PART["C11"] = {
+    "runs": [{"name": "streams", "pkg": P, "run": "^TestVF_C11", "timeout": "30m", "timeout_thorough": "90m", "race_thorough": True}],
+    "rule": "the real callbackStore stack (base store -> scheme store -> append store -> callback store, as newChainStore builds it) on bolt-trimmed / bolt-untrimmed / memdb (ring full or not), "
+            "chained and unchained, pre-filled, served by the real SyncChain to consumers whose Send is gated; chosen interleavings: quiet, appends while the scan is parked in its k-th Send, appends while "
+            "the stream is parked at the scan->live hand-over (hook syncchain.handover), both, two concurrent streams, reconnect from the same address (replacement); start rounds 0 / head / window start / "
+            "middle; oracle: delivered rounds = from, from+1, ... store head at quiescence, bytes equal to the stored beacons. non-trivial = at least one append landed inside the catch-up phase "
+            "(or quiet/two-stream baseline); distinct = distinct case parameters",
+    "assumptions": ["streams that ended (replaced / errored) are exempt from completeness, not from order"],
+    "race_anchors": ["callbackStore"],
+}
